@@ -209,6 +209,21 @@ class HObj(object):
         return "HObj<%s>(%s)" % (self.cls, sorted(self.f))
 
 
+class HRecList(object):
+    """Symbolic-length list of records (objects with scalar / optional-scalar fields), one array per field.
+    Read-only: elements are materialised as fresh objects on iteration / indexing."""
+
+    def __init__(self, n, cols):
+        self.n, self.cols = n, cols
+
+    def elem(self, k, st):
+        f = {}
+        for fld, (mode, kind, nonearr, arr) in self.cols.items():
+            v = wrap(kind, z3.Select(arr, k))
+            f[fld] = VOpt(z3.Select(nonearr, k), v) if mode == "opt" else v
+        return st.alloc(HObj("Record", f))
+
+
 class HOpaque(object):
     """A cell whose content is unknown after havoc (e.g. a list of object references); any read is out of subset."""
 
